@@ -60,7 +60,7 @@ def run(ctx, configs=None):
                fn=roles.f_init.path, construct="exit-state", where=roles.f_init.where(roles.f_init.return_blocks()[0]))
         # flush call sites feeding the loop
         nflush = sum(1 for b in (roles.f_init, roles.f_run) for _ in b.calls_to("^" + re.escape(roles.f_flush.path) + "$"))
-        ctx.floor("C12.clean-at-read", "flush call sites in handshake+loop (%s)" % cfg, nflush, 4)
+        ctx.floor("C12.clean-at-read", "flush call sites in handshake+loop (%s)" % cfg, nflush, 2)
 
         # ---- flush-is-complete ---------------------------------------------------------------
         fl = roles.f_flush
